@@ -267,8 +267,10 @@ fn canary(inv: &Inv, pred: &model::Prediction, out: &run::Outcome, fired: &run::
             // only liveness of the seam: some attempt to open something in the world must be
             // visible (an implementation may stop early, cache, or de-duplicate - that is for the
             // invariants to judge, not for the canary)
-            if !paths.is_empty() && pred.level == Level::Full && !out.trace.iter().any(|e| e.sym.starts_with("open")) {
-                return Some("a file list was given but no open call was intercepted".into());
+            // (and only when the outcome is the one the model predicts anyway - the caller asks
+            // the invariants first)
+            if !paths.is_empty() && pred.level == Level::Full && !out.trace.iter().any(|e| e.sym.starts_with("open") || e.sym == "stat") {
+                return Some("a file list was given but no open or stat call was intercepted".into());
             }
         }
         Shape::FormatAll { .. } => {
@@ -519,10 +521,9 @@ pub fn run_case(env: &Env, case: &Case, oracle: &mut Oracle, mut fill: Option<Pl
                 if pred.unmodelled.is_some() {
                     stats.unmodelled += 1;
                 }
-                if let Some(msg) = canary(&inv, &pred, &out, &fired) {
-                    result.harness_error = Some(format!("seam canary: {msg} (argv {:?})", inv.argv("{ROOT}")));
-                    break;
-                }
+                // (the seam canary is consulted after the verdict: an outcome that violates an
+                // invariant is reported as that, whatever the trace looks like)
+                let canary_msg = canary(&inv, &pred, &out, &fired);
                 let same_as_prev = matches!(&prev_write_inv, Some((s, c, d)) if *s == inv.shape && *c == inv.style.cfg() && *d == inv.cwd);
                 record_probes(stats, &tree, &inv, &pred, &out, &fired, oracle, same_as_prev);
                 let mut classes: Vec<char> = pred.inputs.iter().map(|i| class_code(&i.class)).collect();
@@ -563,6 +564,10 @@ pub fn run_case(env: &Env, case: &Case, oracle: &mut Oracle, mut fill: Option<Pl
                 };
                 if !v.is_empty() {
                     result.violations = v;
+                    break;
+                }
+                if let Some(msg) = canary_msg {
+                    result.harness_error = Some(format!("seam canary: {msg} (argv {:?})", inv.argv("{ROOT}")));
                     break;
                 }
                 // advance the model to what is on disk (equal to the prediction where exact)
